@@ -39,7 +39,8 @@ META = {
     'assumptions': ['signatures handed to the splitter are valid (balanced)'],
     'decided': ['D1 wrapper table', 'D2 inferred signature is one complete '
                 'type', 'D3 one splitter', 'D4 no dead decision',
-                'D5 splitter tiling and bracket matching'],
+                'D5 splitter tiling and bracket matching',
+                'D6 variant encoder/decoder agreement (shared with C01/C02)'],
     'undecided': ['exactness of the splitter on every valid signature',
                   'value round trip under the inferred signature (C01)'],
 }
@@ -153,6 +154,17 @@ def run(ctx):
            % sorted(pairs))
     tiling(ctx, gct)
     matcher(ctx, fe)
+    # variants encode under the inferred signature and decode back: the
+    # variant clauses of the codec cross-check (C01-D5/D7, C02-D5)
+    from . import c01, codec_rules as R
+    cm = CodecModel(prog)
+    for le, _ in R.ORDERS:
+        c01.variant_rules(ctx, cm, 'C19.D6', 'C19.D6', le,
+                          rule_spec='C19.D6')
+        for fi in (cm.enc['v'], cm.dec['v']):
+            for p in cm.paths(fi, le):
+                R.check_threading(ctx, cm, 'C19.D6', fi, le, p, fi.name)
+    ctx.floor('C19.D6', 10)
     ctx.floor('C19.D1', 10)
     ctx.floor('C19.D2', 8)
     ctx.floor('C19.D3', 4)
